@@ -2262,16 +2262,18 @@ func (interp *Interpreter) cfg(root *node, sc *scope, importPath, pkgName string
 			case n.rval.IsValid():
 				n.gen = nop
 				n.findex = notInFrame
-			case n.anc.kind == assignStmt && n.anc.action == aAssign && n.anc.nright == 1:
+			case n.anc.kind == assignStmt && n.anc.action == aAssign && n.anc.nright == 1 && (n.action == aRecv || !isInterface(n.anc.child[childPos(n)-n.anc.nright].typ)):
 				dest := n.anc.child[childPos(n)-n.anc.nright]
 				n.typ = dest.typ
 				n.findex = dest.findex
 				n.level = dest.level
-			case n.anc.kind == returnStmt:
+			case n.anc.kind == returnStmt && (n.action == aRecv || !isInterface(sc.def.typ.ret[childPos(n)])):
 				pos := childPos(n)
 				n.typ = sc.def.typ.ret[pos]
 				n.findex = pos
 			default:
+				// The result keeps its own type and location (an interface destination is
+				// set by the assignment or the return from the concrete value).
 				n.findex = sc.add(n.typ)
 			}
 
